@@ -418,7 +418,15 @@ func (v *Verifier) symValue(prefix string, t types.Type, entry bool) Value {
 	case *types.Pointer:
 		// fresh object behind a pointer-typed component (assumed non-nil, unaliased): recorded as assumption
 		o := v.newObject(prefix, u.Elem(), entry)
+		v.symDepth++
+		if v.symDepth > 4 {
+			// deep object graphs are not unfolded: the pointee has no modelled content (any access is reported)
+			v.symDepth--
+			o.Global = true
+			return &PtrV{Obj: o}
+		}
 		v.initMem[o] = v.symValue(prefix+"^", u.Elem(), entry)
+		v.symDepth--
 		v.assume("pointer-typed component " + prefix + " is assumed non-nil and not aliased with other arguments")
 		return &PtrV{Obj: o}
 	case *types.Slice:
@@ -429,6 +437,18 @@ func (v *Verifier) symValue(prefix string, t types.Type, entry bool) Value {
 		o := v.newObject(prefix+" (map, contents not modelled)", t, entry)
 		o.Unmodelled = true
 		return &PtrV{Obj: o}
+	case *types.Signature:
+		return &FuncV{}
+	case *types.Chan:
+		return &PtrV{}
+	}
+	if b, ok := t.Underlying().(*types.Basic); ok {
+		if b.Info()&types.IsFloat != 0 || b.Info()&types.IsComplex != 0 {
+			return v.F.Var(prefix, mkSort("Float"))
+		}
+		if b.Kind() == types.UnsafePointer {
+			return &PtrV{}
+		}
 	}
 	unsup("symbolic value of type %s", t)
 	return nil
@@ -963,13 +983,22 @@ func (fr *Frame) run(b, pred *ssa.BasicBlock, st *State, stop *ssa.BasicBlock) (
 						st.srcAdr[p.Comment] = false
 					}
 				}
+				fr.bindIter(st, b, body, pred)
 				if pred != nil && body[pred] {
 					// back edge: assert invariant, end path
+					if len(ann.BackInv) > 0 {
+						// end-of-iteration obligations are checked before the head's ghost assignments reset anything
+						se := &SpecEnv{fr: fr, st: st, old: fr.entry, vars: fr.params, pkg: fr.fn.Pkg, fn: fr.fn}
+						for _, bi := range ann.BackInv {
+							fr.oblige(st, fmt.Sprintf("loop%d:iteration:%s", fr.loopOrd[b], bi.Name), se.evalBool(bi.E), bi.E.Src)
+						}
+					}
 					fr.applyAnnot(st, ann, fmt.Sprintf("loop%d:preserve", fr.loopOrd[b]), true, false)
 					return nil
 				}
 				fr.applyAnnot(st, ann, fmt.Sprintf("loop%d:entry", fr.loopOrd[b]), true, false)
 				fr.havocLoop(st, b, body)
+				fr.bindIter(st, b, body, nil)
 				fr.applyAnnot(st, ann, "", false, true)
 			}
 		}
@@ -1100,4 +1129,45 @@ func (fr *Frame) doPanic(st *State, t *ssa.Panic) {
 		}
 	}
 	fr.oblige(st, "panic", fr.v.F.False(), msg+" must be unreachable")
+}
+
+// bindIter gives invariants a loop-shape independent name: "iter" is the number of completed iterations of
+// the loop, i.e. (counter - initial value) for the header phi that is incremented by one on the back edge
+// (the hidden index of a range loop, or the variable of a three-clause loop).
+func (fr *Frame) bindIter(st *State, h *ssa.BasicBlock, body map[*ssa.BasicBlock]bool, pred *ssa.BasicBlock) {
+	key := fmt.Sprintf("iter!init!%d", fr.loopOrd[h])
+	for _, ins := range h.Instrs {
+		p, ok := ins.(*ssa.Phi)
+		if !ok {
+			break
+		}
+		isCounter := false
+		for i, e := range p.Edges {
+			if !body[h.Preds[i]] {
+				continue
+			}
+			if bo, ok := e.(*ssa.BinOp); ok && bo.Op == token.ADD {
+				if c, ok := bo.Y.(*ssa.Const); ok && c.Value != nil && c.Int64() == 1 && bo.X == p {
+					isCounter = true
+				}
+			}
+		}
+		if !isCounter {
+			continue
+		}
+		cur, ok := st.env()[p].(*Term)
+		if !ok {
+			continue
+		}
+		if pred != nil && !body[pred] {
+			st.ghosts[key] = cur // entry arrival: remember the initial value
+		}
+		init, ok := st.ghosts[key]
+		if !ok {
+			continue
+		}
+		st.srcVar["iter"] = fr.v.F.Sub(cur, init)
+		st.srcAdr["iter"] = false
+		return
+	}
 }
